@@ -311,6 +311,21 @@ Proof.
   destruct (p1_dof_is_rank y j Hy Ny) as (_ & Ey & Dy). rewrite Ex, Ey in E. now apply (rank_inj (pD st)).
 Qed.
 
+(* partition of unity: an element all of whose vertices are selected (always the case with include_boundary_dofs,
+   and on a closed grid with the whole grid as support) carries multiplier 1 on its three local functions, so by
+   Reference.p1_partition_of_unity the basis sums to one there *)
+Theorem p1_full_multipliers x : sup x = true -> (forall k, k < 3 -> sel (elems g x k) = true) ->
+  supp s x = true /\ forall k, k < 3 -> mult s x k = 1%Z.
+Proof.
+  intros Sx Hall. pose proof (H_sup x Sx) as Hx.
+  assert (Hvis : p1_visited g sup st x = true).
+  { unfold p1_visited. rewrite Sx. apply Nat.ltb_lt in Hx. now rewrite Hx. }
+  assert (R : forall k, k < 3 -> p1_real st x k = true) by (intros k Hk; rewrite real_support by assumption; now apply Hall).
+  assert (Hs : supp s x = true).
+  { unfold s, p1_space. fold st. cbn. rewrite Hvis. unfold p1_has. rewrite (R 0) by lia. reflexivity. }
+  split; [exact Hs|]. intros k Hk. rewrite mult_real by assumption. now rewrite R.
+Qed.
+
 (* ---------- dof count ---------- *)
 Hypothesis H_vert : forall x k, x < nelem g -> k < 3 -> elems g x k < nvert g.
 Let count := p1_selected_count g sup incl trunc.
